@@ -71,6 +71,10 @@ CHECKS = {
             "Fault enumeration over genuine traffic: every truncation, per-position byte edits, every single bit (items <= 256 B), type-byte sweeps, label-header variants, structurally hostile plaintexts and decompression bombs on the packet path; every cut point (FIN or stall), bit flips, over-cap declarations, bombs, 140 concurrent stalled push/pulls and a handler-stuck flood on the stream path - per configuration (label x encryption x verify-incoming x compression). Monitors: process survival (journal names the fatal input), digest equality for inputs the oracle-side codec finds undecodable, listener liveness probes, leak checks after TCPTimeout (connections, pending-probe records, push/pull counter, goroutines), bytes consumed after an over-cap header, handoff queue depth. ~230 k inputs in the quick tier; thorough enumerates all positions.",
             "The enumeration is complete for single-bit/single-byte edits and truncations of the chosen genuine items in thorough, sampled by stride in quick; it says nothing about multi-byte edits beyond the listed generators. Trusts the oracle-side codec's notion of 'well-formed'.",
             "mutation enumeration with crash/effect/liveness/leak/cap monitors", "DESIGN.md §3 C13"),
+    "C14": ("E3-hostile-input", "fault_enumeration",
+            "Fault enumeration on genuine ciphertext: for each genuine transmission (packet and stream items chosen so that a wrongly accepted variant is visible: PKCS#7-looking tails, block-aligned plaintexts, a second installed key) every single bit is flipped, every truncation, 16-byte-boundary splices, relabelling (other / extended / none / doubled header, and with the inbound label check delegated), foreign key, foreign associated data, cleartext, and a key removed while rotation calls run concurrently. The observed effect (digest diff, delegate calls with arguments, every emitted packet for 1.5 s, decoded stream reply) must be empty or identical to the effect of the genuine plaintext in the same state. Two named variants are registered known findings (unauthenticated version byte on checksum-less packets); any other accepted modification is a VIOLATION.",
+            "Enumeration is complete over single-bit edits and truncations of the chosen items in thorough (strided over the ciphertext body in quick). Trusts stdlib AES-GCM and the oracle-side framing.",
+            "effect-equivalence oracle over enumerated ciphertext modifications", "DESIGN.md §3 C14"),
 }
 
 NOT_YET = "check not built yet in this round (design in DESIGN.md §3); not claimed until its monitor runs clean on the unchanged tree"
